@@ -68,7 +68,7 @@ def entries : List Entry := [
       | [d, w, u, tu, t16] => do
         let d ← fromHex d; let w ← fromHex w; let u ← boolArg u
         let up := tableFn (← parseTable tu); let u16 := tableFn (← parseTable t16)
-        pure (okHex (createNegotiate up u16 d w u))
+        pure (showOutcomeWith toHex (createNegotiateMessage up u16 d w u))
       | _ => none },
   -- spec: the MS-NLMP validator on the implementation's own message (appended by the harness)
   { kind := "S", op := "c08.neg", run := fun
@@ -77,17 +77,18 @@ def entries : List Entry := [
         let up := tableFn (← parseTable tu); let u16 := tableFn (← parseTable t16)
         let dn := Spec.negotiateName up u16 u d
         let wn := Spec.negotiateName up u16 u w
-        let key := if KnownBad_field64k [dn, wn] then " #field64k" else ""
-        if msg == "none" then pure ("invalid" ++ key) else
+        -- a name that a 16-bit length cannot describe has no message: the builder must refuse it
+        if !Spec.fieldsFit [dn, wn] then pure "err" else
+        if msg == "none" then pure "invalid" else
         let m ← fromHex msg
-        pure ((if Spec.validNegotiate m u (!d.isEmpty) (!w.isEmpty) dn wn then okHex m else "invalid") ++ key)
+        pure (if Spec.validNegotiate m u (!d.isEmpty) (!w.isEmpty) dn wn then okHex m else "invalid")
       | _ => none },
   -- c08.auth <flags> <sc> <ti> <user> <password> <domain> <workstation> <upper-table> <utf16-table> | <lm> <nt>
   { kind := "M", op := "c08.auth", run := fun
       | [f, _sc, _ti, us, _pw, d, w, tu, t16, lm, nt] => do
         let f ← u32Arg f; let us ← fromHex us; let d ← fromHex d; let w ← fromHex w
         let up := tableFn (← parseTable tu); let u16 := tableFn (← parseTable t16)
-        pure (okHex (createAuthenticate up u16 f (← fromHex lm) (← fromHex nt) us d w))
+        pure (showOutcomeWith toHex (createAuthenticateMessage up u16 f (← fromHex lm) (← fromHex nt) us d w))
       | _ => none },
   { kind := "S", op := "c08.auth", run := fun
       | [f, _sc, _ti, us, _pw, d, w, tu, t16, lm, nt, msg] => do
@@ -97,10 +98,10 @@ def entries : List Entry := [
         let dn := Spec.authName u16 f d
         let un := Spec.authName u16 f us
         let wn := Spec.authName u16 f (up w)
-        let key := if KnownBad_field64k [lm, nt, dn, un, wn] then " #field64k" else ""
-        if msg == "none" then pure ("invalid" ++ key) else
+        if !Spec.fieldsFit [lm, nt, dn, un, wn] then pure "err" else
+        if msg == "none" then pure "invalid" else
         let m ← fromHex msg
-        pure ((if Spec.validAuthenticate m f lm nt dn un wn then okHex m else "invalid") ++ key)
+        pure (if Spec.validAuthenticate m f lm nt dn un wn then okHex m else "invalid")
       | _ => none },
   -- c08.chal <bytes>
   { kind := "M", op := "c08.chal", run := fun
